@@ -1,7 +1,7 @@
 CONSTANTS
-  T = 2
+  T = 0
   MaxKeys = 2
-  Servers = {"A"}
+  Servers = {"A", "B"}
   MaxAge = 2
   StampOnRevoke = TRUE
   ReloadOnCommit = TRUE
